@@ -120,3 +120,55 @@ def uf_callable(model, name, default=1.0):
             return np.vectorize(one)(*q)
         return one(*q)
     return f
+
+
+# ------------------------------------------------------------------ effect checks: the caller's containers are left alone
+
+def snapshot(x):
+    """Identity snapshot of a caller-owned container (array, record array, frame, dict of arrays): the container objects and
+    the element objects they hold.  Elements are immutable values, so 'same objects in the same places' is 'unchanged'."""
+    from ..shims import pd_shim
+    if isinstance(x, SymArray):
+        if x.ndim == 2:
+            return ("a2", x, [snapshot(r) for r in x.d], x.dtype_tag)
+        return ("a1", x, list(x.d), x.dtype_tag)
+    if isinstance(x, SymRec):
+        return ("rec", x, {k: snapshot(v) for k, v in x.cols.items()})
+    if isinstance(x, pd_shim.SymFrame):
+        return ("frame", x, {k: snapshot(v) for k, v in x.cols.items()}, None if x.index_labels is None else list(x.index_labels))
+    if isinstance(x, dict):
+        return ("dict", x, {k: snapshot(v) for k, v in x.items()})
+    return ("other", x, None)
+
+
+def touched(snap):
+    """None if the snapshotted container is as it was, else a short description of what changed."""
+    kind, x = snap[0], snap[1]
+    if kind == "a1":
+        if x.dtype_tag != snap[3]:
+            return "dtype changed"
+        if len(x.d) != len(snap[2]) or any(a is not b for a, b in zip(x.d, snap[2])):
+            return "elements changed"
+        return None
+    if kind == "a2":
+        if len(x.d) != len(snap[2]):
+            return "rows changed"
+        for r in snap[2]:
+            t = touched(r)
+            if t:
+                return t
+        return None
+    if kind in ("rec", "frame", "dict"):
+        cols = x.cols if kind != "dict" else x
+        if list(cols.keys()) != list(snap[2].keys()):
+            return f"keys changed to {list(cols.keys())}"
+        for k, sub in snap[2].items():
+            if sub[0] != "other" and cols[k] is not sub[1]:
+                return f"column {k!r} replaced"
+            t = touched(sub) if sub[0] != "other" else None
+            if t:
+                return f"column {k!r}: {t}"
+        if kind == "frame" and (None if x.index_labels is None else list(x.index_labels)) != snap[3]:
+            return "index labels changed"
+        return None
+    return None
